@@ -422,10 +422,65 @@ class Program:
             d["inlined_from"].append(cb.path)
             for nbi in range(boff, len(d["blocks"])):
                 work.append((nbi, dep + 1, stack + (cb.path,)))
+        if d["inlined_from"]:
+            self._fold_known_discriminants(d)
         nb_ = Body(body.path, d, body.crate)
         nb_.inlined_from = d["inlined_from"]
         cache[key] = nb_
         return nb_
+
+    def _fold_known_discriminants(self, d):
+        """After inlining, `match arg { Some(i) .. }` in a helper called with `Some(x)` switches on the discriminant of an
+        aggregate built a few moves earlier: replace such switches by a goto to the arm taken (the other arms are dead)."""
+        defs = {}
+        for bi, blk in enumerate(d["blocks"]):
+            for s_ in blk["stmts"]:
+                if s_["k"] == "Assign" and not s_["lhs"]["p"]:
+                    defs.setdefault(s_["lhs"]["l"], []).append(s_["rv"])
+            t = blk["term"]
+            if t.get("k") == "Call" and t.get("dest") and not t["dest"]["p"]:
+                defs.setdefault(t["dest"]["l"], []).append({"k": "CallResult"})
+        for i in range(1, d["argc"] + 1):
+            defs.setdefault(i, []).append({"k": "Param"})
+
+        def variant_of(local, depth=0):
+            ds = defs.get(local, [])
+            if len(ds) != 1 or depth > 4:
+                return None
+            rv = ds[0]
+            if rv["k"] == "Aggregate" and rv.get("ak") == "Adt" and rv.get("variant"):
+                return rv["adt"], rv["variant"]
+            if rv["k"] == "Use":
+                pl = rv["a"].get("m") or rv["a"].get("c")
+                if pl and not pl["p"]:
+                    return variant_of(pl["l"], depth + 1)
+            return None
+        STD = {("core::option::Option", "None"): 0, ("core::option::Option", "Some"): 1, ("core::result::Result", "Ok"): 0, ("core::result::Result", "Err"): 1}
+        for blk in d["blocks"]:
+            t = blk["term"]
+            if t.get("k") != "SwitchInt":
+                continue
+            pl = t["discr"].get("m") or t["discr"].get("c")
+            if not pl or pl["p"]:
+                continue
+            ds = defs.get(pl["l"], [])
+            if len(ds) != 1 or ds[0]["k"] != "Discriminant" or ds[0]["p"]["p"]:
+                continue
+            v = variant_of(ds[0]["p"]["l"])
+            if v is None:
+                continue
+            val = STD.get(v)
+            if val is None and v[0] in self.adts:
+                for vv in self.adts[v[0]]["variants"]:
+                    if vv["name"] == v[1]:
+                        val = int(vv["discr"])
+            if val is None:
+                continue
+            tgt = t["otherwise"]
+            for tv, tb in t["targets"]:
+                if tv == val:
+                    tgt = tb
+            blk["term"] = {"k": "Goto", "t": tgt, "line": t.get("line"), "folded": "%s::%s" % v}
 
     def find(self, *needles, kind=None):
         """Bodies whose path contains all needles."""
